@@ -357,3 +357,103 @@ func NewNull() *J         { return &J{K: Null} }
 func NewNum(n int64) *J   { return &J{K: Num, N: strconv.FormatInt(n, 10)} }
 func NewBool(b bool) *J   { return &J{K: Bool, B: b} }
 func (j *J) IsNull() bool { return j != nil && j.K == Null }
+
+// CanonSorted renders the value with object keys sorted (order-insensitive comparison).
+func (j *J) CanonSorted() string {
+	var sb strings.Builder
+	j.canonSorted(&sb)
+	return sb.String()
+}
+
+func (j *J) canonSorted(sb *strings.Builder) {
+	if j == nil {
+		sb.WriteString("<absent>")
+		return
+	}
+	switch j.K {
+	case Arr:
+		sb.WriteByte('[')
+		for i, e := range j.A {
+			if i > 0 {
+				sb.WriteByte(',')
+			}
+			e.canonSorted(sb)
+		}
+		sb.WriteByte(']')
+	case Obj:
+		idx := make([]int, len(j.Keys))
+		for i := range idx {
+			idx[i] = i
+		}
+		for a := 1; a < len(idx); a++ {
+			for b := a; b > 0 && j.Keys[idx[b]] < j.Keys[idx[b-1]]; b-- {
+				idx[b], idx[b-1] = idx[b-1], idx[b]
+			}
+		}
+		sb.WriteByte('{')
+		for n, i := range idx {
+			if n > 0 {
+				sb.WriteByte(',')
+			}
+			sb.WriteString(strconv.Quote(j.Keys[i]))
+			sb.WriteByte(':')
+			j.Vals[i].canonSorted(sb)
+		}
+		sb.WriteByte('}')
+	default:
+		j.canon(sb)
+	}
+}
+
+// Clone deep-copies the value.
+func (j *J) Clone() *J {
+	if j == nil {
+		return nil
+	}
+	c := *j
+	if j.A != nil {
+		c.A = make([]*J, len(j.A))
+		for i, e := range j.A {
+			c.A[i] = e.Clone()
+		}
+	}
+	if j.Keys != nil {
+		c.Keys = append([]string(nil), j.Keys...)
+		c.Vals = make([]*J, len(j.Vals))
+		for i, e := range j.Vals {
+			c.Vals[i] = e.Clone()
+		}
+	}
+	return &c
+}
+
+// At resolves a response path such as users[0].best; nil when it does not resolve.
+func (j *J) At(path string) *J {
+	cur := j
+	i := 0
+	for i < len(path) && cur != nil {
+		switch path[i] {
+		case '.':
+			i++
+		case '[':
+			e := strings.IndexByte(path[i:], ']')
+			if e < 0 {
+				return nil
+			}
+			n, err := strconv.Atoi(path[i+1 : i+e])
+			if err != nil || cur.K != Arr || n < 0 || n >= len(cur.A) {
+				return nil
+			}
+			cur = cur.A[n]
+			i += e + 1
+		default:
+			e := strings.IndexAny(path[i:], ".[")
+			if e < 0 {
+				e = len(path) - i
+			}
+			cur = cur.Get(path[i : i+e])
+			i += e
+		}
+	}
+	return cur
+}
